@@ -11,3 +11,4 @@ from . import hooks  # noqa: F401
 from . import document  # noqa: F401
 from . import serial  # noqa: F401
 from . import jsx  # noqa: F401
+from . import paths  # noqa: F401
